@@ -360,7 +360,100 @@ func malformedLine(r *rng.R) string {
 
 func decLine(ty string, tok []byte) string { return ty + ".dec " + tokArg(tok) }
 
+// genDictCase: words (mined string literals of the tree under test + a static dictionary) and single characters
+// (mined rune literals + letters) as whole tokens and as prefix / suffix / infix of valid tokens, for every wrapper.
+func genDictCase(r *rng.R) corr.Case {
+	words, chars := lits.words(), lits.chars()
+	var lines []string
+	for k := 0; k < 2; k++ {
+		w := words[r.Intn(len(words))]
+		if r.Chance(1, 3) {
+			w = chars[r.Intn(len(chars))]
+		}
+		core := randDigits(r, r.Range(1, 6))
+		var text string
+		switch r.Intn(6) {
+		case 0, 1:
+			text = w
+		case 2:
+			text = core + w
+		case 3:
+			text = w + core
+		case 4:
+			j := r.Intn(len(core) + 1)
+			text = core[:j] + w + core[j:]
+		default:
+			text = r.Pick("-", "+", " ") + w
+		}
+		tok := []byte(`"` + text + `"`)
+		if r.Chance(1, 5) {
+			tok = []byte(text)
+		}
+		for _, ty := range allTypes {
+			lines = append(lines, decLine(ty, tok))
+		}
+		// the same word as a duration unit and as a list element, and through the entry points that take plain text
+		u := chars[r.Intn(len(chars))]
+		dur := r.Pick("", "1h", "1m30s", "-2h") + randDigits(r, r.Range(1, 3)) + r.Pick("", "."+randDigits(r, 1)) + r.Pick(u, w)
+		lines = append(lines, decLine("dur", []byte(`"`+dur+`"`)), "dur.toml "+tokArg([]byte(dur)),
+			decLine("byte", []byte(`"`+strconv.Itoa(r.Intn(256))+"/"+text+`"`)), "byte.fromstr "+tokArg([]byte(text+"/7")),
+			"b64.dec "+tokArg([]byte(text)), "hex.dec "+r.Pick("16", "32")+" "+r.Pick("s", "u")+" "+tokArg([]byte(text)),
+			"sql.scan "+r.Pick("nano", "unix")+" "+r.Pick("bytes", "str")+" "+tokArg([]byte(text)))
+	}
+	return corr.Case{Tag: "dictionary", Lines: lines}
+}
+
+// genSizeCase: containers and tokens of the sizes named by integer literals of the tree under test (literal−1, literal,
+// literal+1) and of a few fixed large sizes.
+func genSizeCase(r *rng.R) corr.Case {
+	sizes := lits.sizes(70000)
+	n := sizes[r.Intn(len(sizes))]
+	for tries := 0; n > 3000 && tries < 3 && !r.Chance(1, 4); tries++ {
+		n = sizes[r.Intn(len(sizes))]
+	}
+	return sizeCase(r, n)
+}
+
+func sizeCase(r *rng.R, n int) corr.Case {
+	var lines []string
+	elems := make([]string, n)
+	raw := make([]byte, n)
+	for j := range elems {
+		b := r.Intn(256)
+		elems[j], raw[j] = strconv.Itoa(b), byte(b)
+	}
+	list := strings.Join(elems, ",")
+	if n == 0 {
+		list = "-"
+	}
+	lines = append(lines, "byte.rt "+list, decLine("byte", []byte(`"`+strings.Join(elems, "/")+`"`)), "byte.fromstr "+tokArg([]byte(strings.Join(elems, "/"))),
+		"b64.rt x:"+hex.EncodeToString(raw))
+	const std = "ABCDEFGHIJKLMNOPQRSTUVWXYZabcdefghijklmnopqrstuvwxyz0123456789+/"
+	b64 := make([]byte, n)
+	for j := range b64 {
+		b64[j] = std[r.Intn(64)]
+	}
+	lines = append(lines, "b64.dec "+tokArg(b64))
+	if n >= 1 && n <= 3000 {
+		digits := strings.Repeat("0", n-1) + strconv.Itoa(1+r.Intn(9))
+		if r.Bool() {
+			digits = randDigits(r, n)
+		}
+		for _, ty := range intTypes {
+			lines = append(lines, decLine(ty, []byte(`"`+digits+`"`)))
+		}
+		lines = append(lines, decLine("dur", []byte(`"`+digits+`ns"`)), "hex.dec 16 u "+tokArg([]byte(digits)), "hex.dec 32 s "+tokArg([]byte("-"+digits)))
+	}
+	return corr.Case{Tag: "sizes", Lines: lines}
+}
+
 func genCase(r *rng.R, tier string, i int) corr.Case {
+	if r.Chance(1, 12) {
+		return genDictCase(r)
+	}
+	if r.Chance(1, 80) {
+		return genSizeCase(r)
+	}
 	lines := []string{}
 	n := 8
 	if tier != "quick" {
@@ -520,6 +613,13 @@ func fixedCases() []corr.Case {
 			"sql.scan unix bytes t:abc", "sql.scan unix str t:", "sql.scan nano str t:9223372036854775808"),
 		c("other-entry-points", "dur.toml t:1h2m3.5s", "dur.toml t:-5s", "dur.toml t:15m", "dur.toml t:0", "dur.toml t:", "dur.toml t:5", "dur.toml k:int", "dur.toml k:bytes", "dur.toml k:nil",
 			"byte.fromstr t:1/2/3", "byte.fromstr t:", "byte.fromstr t:256", "byte.fromstr t:-1", "byte.fromstr t:1//2", "b64.scankind int", "b64.scankind nil"))
+	out = append(out,
+		c("redteam-words", `i64.dec t:"undefined"`, `i64.dec t:"NaN"`, `u64.dec t:"nil"`, `utime.dec t:"Infinity"`, `stamp.dec t:"false"`, `ntime.dec t:"None"`, `byte.dec t:"[]"`,
+			`dur.dec t:"never"`, `dur.dec t:"1h2w"`, `dur.dec t:"2w"`, `dur.dec t:"2d"`, `dur.toml t:2w`, `dur.dec t:"off"`))
+	for _, n := range []int{255, 256, 300} {
+		out = append(out, sizeCase(rng.New(uint64(n)), n))
+	}
+	out = append(out, sizeCase(rng.New(7), 49150), sizeCase(rng.New(8), 70000))
 	out = append(out, c("malformed", "nop", "i64.dec", "i64.dec t:%zz", "i64.rt 9223372036854775808", "hex.rt 10 s 5", "b64.rt x:4", "sql.scan moon i64 1"))
 	return out
 }
